@@ -203,6 +203,9 @@ func dnsScenarioC09(w *dnsWorld) {
 	w.faulty = T.Pick(1, 2, 5)
 	w.cfg = dnsCfg{optimistic: T.Chance(1, 2), staleTtl: []int{60, 5}[T.Choose(2)], maxSize: []int{0, 3}[T.Choose(2)],
 		janitor: []time.Duration{30 * time.Second, 5 * time.Second}[T.Choose(2)], idleTTL: []time.Duration{2 * time.Minute, 10 * time.Second}[T.Choose(2)], fixed: map[string]int{}}
+	if w.cfg.maxSize > 0 && T.Chance(1, 2) {
+		w.cfg.staleTtl = 0 // stale answers never expire (LRU only): the pre-packed reply path is used
+	}
 	w.envBudget = T.Range(0, 12)
 	if !w.setup(dnsSetup{nNames: [2]int{1, 3}, nUps: [2]int{1, 3}, schemes: []string{"udp", "tcp", "tcp+udp", "udp"}, dialMode: consts.DialMode_Ip}) {
 		return
